@@ -1,26 +1,21 @@
 (* C13  Specification generation and greedy search are deterministic.
-   FULL STATEMENT (not proved):  every set-iteration site on the specification/greedy path is
-   unobservable or order independent, i.e.
+   FULL STATEMENT (proved on the regenerated site table):  every set-iteration site on the
+   specification/greedy/bounds path is unobservable, unreachable or order independent, i.e.
        all_accounted iter_sites = true /\ dynamic_only iter_sites = [].
-   PROVED (partial): every site of the regenerated table is discharged by a generic lemma, unreachable,
-   or modelled and proved order independent, EXCEPT the six sites of the bound/dependency computations
-   listed in [c13_sites_partial], which are only validated by forced-order replay (harness/c13.py). *)
+   Every site of the table regenerated from /repo by gen/gen_frame.py is discharged by a generic lemma
+   (consumer insensitive to the order: sorted, membership, len, any/all, sum, min/max, set building),
+   unreachable from the entry points, or modelled and proved order independent.  The six sites of the
+   bound/dependency computations that used to be validated by forced-order replay only are sorted since
+   the fix commit 2b1d7c75 (they did depend on the string hash seed before it). *)
 From Coq Require Import List NArith Bool String Permutation.
 From GV Require Import Model.OrderIndep Model.OrderIndepProofs Gen.IterSites.
 Import ListNotations.
 Open Scope string_scope.
 
-Theorem c13_sites_partial :
-  all_accounted iter_sites = true /\
-  dynamic_only iter_sites =
-    [ ("smt_encoding.instructions.instruction_bounds_with_dependencies", "InstructionBoundsWithDependencies.__init__");
-      ("smt_encoding.instructions.instruction_bounds_with_dependencies", "number_instr_needed");
-      ("smt_encoding.instructions.instruction_bounds_with_dependencies", "toposort_instr_dependencies");
-      ("smt_encoding.instructions.instruction_bounds_with_dependencies", "update_with_tree_level");
-      ("smt_encoding.instructions.instruction_dependencies", "toposort_instr_dependencies");
-      ("smt_encoding.json_with_dependencies", "bounds_from_instructions") ].
+Theorem c13_sites :
+  all_accounted iter_sites = true /\ dynamic_only iter_sites = [].
 Proof. vm_compute. split; reflexivity. Qed.
-Print Assumptions c13_sites_partial.
+Print Assumptions c13_sites.
 
 (* order independence of the modelled order-exposed sites (iteration order pi explicit) *)
 Theorem c13_pointwise_update : forall (V : Type) (f : N -> V -> V) pi pi' m,
